@@ -17,173 +17,7 @@
 (*              rounding step of the type limit).                          *)
 (* The property only says "accepted ONLY IF ...", hence the third class.   *)
 (***************************************************************************)
-EXTENDS Integers, Sequences
-
-COMMA == 44
-BLANK == 32
-PLUS == 43
-MINUS == 45
-POINT == 46
-IsDigit(c) == c >= 48 /\ c <= 57
-
-S2B(s) == s   \* texts are already byte sequences
-
-RedoText == <<82,101,100,111,32,102,114,111,109,32,115,116,97,114,116,13,10>>  \* "Redo from start\r\n"
-QMark == <<63, 32>>                                                           \* "? "
-
-RECURSIVE SplitAcc(_, _, _)
-SplitAcc(s, cur, acc) ==
-    IF s = <<>> THEN Append(acc, cur)
-    ELSE IF Head(s) = COMMA THEN SplitAcc(Tail(s), <<>>, Append(acc, cur))
-    ELSE SplitAcc(Tail(s), Append(cur, Head(s)), acc)
-Split(s) == SplitAcc(s, <<>>, <<>>)
-
-RECURSIVE TrimL(_)
-TrimL(s) == IF s # <<>> /\ Head(s) = BLANK THEN TrimL(Tail(s)) ELSE s
-RECURSIVE TrimR(_)
-TrimR(s) == IF s # <<>> /\ s[Len(s)] = BLANK THEN TrimR(SubSeq(s, 1, Len(s) - 1)) ELSE s
-Trim(s) == TrimR(TrimL(s))
-
-\* ---- numeral scanner -------------------------------------------------------
-\* state record: st, neg, plus, ds (all mantissa digits), il (# integer digits),
-\* point, mark ("" | "E" | "D"), eneg, es (exponent digits)
-Scan0 == [st |-> "start", neg |-> FALSE, plus |-> FALSE, ds |-> <<>>, il |-> 0,
-          point |-> FALSE, mark |-> "", eneg |-> FALSE, es |-> <<>>]
-
-ScanStep(q, c) ==
-    LET bad == [q EXCEPT !.st = "bad"] IN
-    CASE q.st = "start" ->
-           IF c = PLUS THEN [q EXCEPT !.st = "sign", !.plus = TRUE]
-           ELSE IF c = MINUS THEN [q EXCEPT !.st = "sign", !.neg = TRUE]
-           ELSE IF IsDigit(c) THEN [q EXCEPT !.st = "int", !.ds = <<c - 48>>, !.il = 1]
-           ELSE IF c = POINT THEN [q EXCEPT !.st = "point0", !.point = TRUE]
-           ELSE bad
-      [] q.st = "sign" ->
-           IF IsDigit(c) THEN [q EXCEPT !.st = "int", !.ds = <<c - 48>>, !.il = 1]
-           ELSE IF c = POINT THEN [q EXCEPT !.st = "point0", !.point = TRUE]
-           ELSE bad
-      [] q.st = "int" ->
-           IF IsDigit(c) THEN [q EXCEPT !.ds = Append(q.ds, c - 48), !.il = q.il + 1]
-           ELSE IF c = POINT THEN [q EXCEPT !.st = "frac", !.point = TRUE]
-           ELSE IF c \in {69, 101} THEN [q EXCEPT !.st = "emark", !.mark = "E"]
-           ELSE IF c \in {68, 100} THEN [q EXCEPT !.st = "emark", !.mark = "D"]
-           ELSE bad
-      [] q.st = "point0" ->
-           IF IsDigit(c) THEN [q EXCEPT !.st = "frac", !.ds = Append(q.ds, c - 48)]
-           ELSE bad
-      [] q.st = "frac" ->
-           IF IsDigit(c) THEN [q EXCEPT !.ds = Append(q.ds, c - 48)]
-           ELSE IF c \in {69, 101} THEN [q EXCEPT !.st = "emark", !.mark = "E"]
-           ELSE IF c \in {68, 100} THEN [q EXCEPT !.st = "emark", !.mark = "D"]
-           ELSE bad
-      [] q.st = "emark" ->
-           IF c = PLUS THEN [q EXCEPT !.st = "esign"]
-           ELSE IF c = MINUS THEN [q EXCEPT !.st = "esign", !.eneg = TRUE]
-           ELSE IF IsDigit(c) THEN [q EXCEPT !.st = "exp", !.es = <<c - 48>>]
-           ELSE bad
-      [] q.st = "esign" ->
-           IF IsDigit(c) THEN [q EXCEPT !.st = "exp", !.es = <<c - 48>>]
-           ELSE bad
-      [] q.st = "exp" ->
-           IF IsDigit(c) THEN [q EXCEPT !.es = Append(q.es, c - 48)]
-           ELSE bad
-      [] OTHER -> bad
-
-RECURSIVE ScanFrom(_, _)
-ScanFrom(q, s) == IF s = <<>> THEN q ELSE ScanFrom(ScanStep(q, Head(s)), Tail(s))
-Scan(s) == ScanFrom(Scan0, s)
-
-WellFormed(q) == q.st \in {"int", "frac", "exp"}
-
-RECURSIVE StripLeadZ(_)
-StripLeadZ(d) == IF d # <<>> /\ Head(d) = 0 THEN StripLeadZ(Tail(d)) ELSE d
-RECURSIVE StripTrailZ(_)
-StripTrailZ(d) == IF d # <<>> /\ d[Len(d)] = 0 THEN StripTrailZ(SubSeq(d, 1, Len(d) - 1)) ELSE d
-
-RECURSIVE ToNat(_)          \* only for at most 9 digits
-ToNat(d) == IF d = <<>> THEN 0 ELSE ToNat(SubSeq(d, 1, Len(d) - 1)) * 10 + d[Len(d)]
-
-\* exponent value, saturated at +-9999 (more than 4 digits = astronomically large)
-ExpVal(q) == LET e == StripLeadZ(q.es)
-                 m == IF Len(e) > 4 THEN 9999 ELSE ToNat(e)
-             IN IF q.eneg THEN 0 - m ELSE m
-
-IsZero(q) == StripLeadZ(q.ds) = <<>>
-\* decimal magnitude: value in [10^(K-1), 10^K)
-Kexp(q) == q.il - (Len(q.ds) - Len(StripLeadZ(q.ds))) + ExpVal(q)
-Lead2(q) == LET s == StripLeadZ(q.ds) IN
-            IF Len(s) >= 2 THEN s[1] * 10 + s[2] ELSE s[1] * 10
-
-\* accumulate a plain digit string as a NEGATIVE number to reach -2^31 without overflow
-RECURSIVE NegAcc(_, _)
-NegAcc(d, acc) ==
-    IF d = <<>> THEN acc
-    ELSE IF acc = 1 THEN 1                       \* 1 = overflow marker (acc is never positive otherwise)
-    ELSE IF acc < -214748364 \/ (acc = -214748364 /\ Head(d) > 8) THEN 1
-    ELSE NegAcc(Tail(d), acc * 10 - Head(d))
-
-\* <<class, value>>; value is <<"I", n>>, <<"F", neg, mantissa, e10>>, <<"T", bytes>> or
-\* <<"skip">> when the spec does not compute it (uniform shape: first component a string)
-IntField(q, lo, hi) ==
-    IF ~q.point /\ q.mark = "" THEN
-        LET na == NegAcc(StripLeadZ(q.ds), 0)
-            v  == IF na = 1 THEN <<FALSE, 0>>
-                  ELSE IF q.neg THEN <<TRUE, na>>
-                  ELSE IF na = -2147483647 - 1 THEN <<FALSE, 0>>
-                  ELSE <<TRUE, 0 - na>>
-        IN IF v[1] /\ v[2] >= lo /\ v[2] <= hi THEN <<"accept", <<"I", v[2]>>>> ELSE <<"reject", <<"skip">>>>
-    ELSE IF ~IsZero(q) /\ Kexp(q) > 10 THEN <<"reject", <<"skip">>>>
-    ELSE <<"either", <<"skip">>>>
-
-\* float value: <<neg, mantissa, e10>> with mantissa*10^e10 the exact decimal value
-\* (only when it has at most 9 significant digits), else "skip"
-FloatVal(q) ==
-    LET sig == StripTrailZ(StripLeadZ(q.ds))
-        \* digits dropped at the right end shift the exponent up
-        fracLen == Len(q.ds) - q.il
-        dropped == Len(StripLeadZ(q.ds)) - Len(sig)
-    IN IF IsZero(q) THEN <<"F", FALSE, 0, 0>>
-       ELSE IF Len(sig) > 9 \/ Kexp(q) > 60 \/ Kexp(q) < -30 THEN <<"skip">>
-       ELSE <<"F", q.neg, ToNat(sig), ExpVal(q) - fracLen + dropped>>
-
-FloatField(q, kmax, lo2, hi2) ==
-    \* kmax: K of the decade holding the largest finite value; lo2/hi2: leading two
-    \* digits certainly inside / certainly outside in that decade
-    LET cls == IF IsZero(q) THEN "accept"
-               ELSE IF Kexp(q) > kmax THEN "reject"
-               ELSE IF Kexp(q) < kmax THEN "accept"
-               ELSE IF Lead2(q) >= hi2 THEN "reject"
-               ELSE IF Lead2(q) <= lo2 THEN "accept"
-               ELSE "either"
-        cls2 == IF cls = "accept" /\ q.mark = "D" THEN "either" ELSE cls
-    IN <<cls2, FloatVal(q)>>
-
-\* classification of one (untrimmed) field for a variable type
-Field(f, t) ==
-    LET s == Trim(f)
-        q == Scan(s)
-    IN IF t = "T" THEN <<"accept", <<"T", s>>>>
-       ELSE IF s = <<>> THEN <<"either", <<"skip">>>>
-       ELSE IF ~WellFormed(q) THEN <<"reject", <<"skip">>>>
-       ELSE CASE t = "I" -> IntField(q, -32768, 32767)
-              [] t = "L" -> IntField(q, -2147483647 - 1, 2147483647)
-              [] t = "S" -> FloatField(q, 39, 33, 35)
-              [] t = "D" -> FloatField(q, 309, 16, 18)
-
-\* classification of a response line for a vector of variable types
-LineFields(line, types) ==
-    LET fs == Split(line)
-    IN IF Len(fs) # Len(types) THEN <<>>
-       ELSE [i \in 1..Len(types) |-> Field(fs[i], types[i])]
-
-LineClass(line, types) ==
-    LET r == LineFields(line, types)
-    IN IF Len(Split(line)) # Len(types) THEN "reject"
-       ELSE IF \E i \in 1..Len(r) : r[i][1] = "reject" THEN "reject"
-       ELSE IF \E i \in 1..Len(r) : r[i][1] = "either" THEN "either"
-       ELSE "accept"
-
-LineVals(line, types) == LET r == LineFields(line, types) IN [i \in 1..Len(r) |-> r[i][2]]
+EXTENDS Numeral
 
 \* prompt forms: "none" INPUT v | "semi" INPUT "p"; v | "comma" INPUT "p", v
 PromptText(form, p) == IF form = "comma" THEN p ELSE (IF form = "none" THEN <<>> ELSE p) \o QMark
